@@ -134,6 +134,8 @@ harnesses! {
         (h_send::c07_send_feed_22, 7),
         (h_send::c07_send_feed_32, 7),
         (h_send::c07_send_feed_failing, 7),
+        (h_send::c07_send_feed_fail_first, 7),
+        (h_send::c07_send_feed_fail_second, 7),
         (h_send::c07_send_bare_10, 7),
         (h_send::c07_send_bare_32, 7),
         (h_send::c07_send_bcast_14, 7),
